@@ -110,7 +110,7 @@ def gen_spheres(p, workdir):
         taggers += ["pair_nearby (excluded_cells_tagger)", "pair_surplus (surplus_cells_tagger)",
                     "cell_boundary (cell_boundary_tagger)"]
         if cells.get("far", True):
-            taggers.append("pair_far (cell_bounding_potential_tagger)")
+            taggers.append("pair_far (cell_veto_tagger)" if cells.get("veto") else "pair_far (cell_bounding_potential_tagger)")
     taggers += ["sampling (no_in_state_tagger)", "end_of_chain (active_global_state_in_state_tagger)",
                 "start_of_run (no_in_state_tagger)", "end_of_run (no_in_state_tagger)"]
     if dump:
@@ -145,7 +145,12 @@ def gen_spheres(p, workdir):
         cfg["PairSurplus"] = dict(common, event_handler="pair_event_handler (two_leaf_unit_event_handler)",
                                   number_event_handlers=str(max(1, p["n"])))
         cfg["CellBoundary"] = dict(common, event_handler="cell_boundary_event_handler")
-        if cells.get("far", True):
+        if cells.get("far", True) and cells.get("veto"):
+            cfg["PairFar"] = dict(common, event_handler="leaf_unit_cell_veto_event_handler")
+            cfg["LeafUnitCellVetoEventHandler"] = {"estimator": "inner_point_estimator", "potential": potsec[0]}
+            cfg["InnerPointEstimator"] = {"potential": potsec[0], "prefactor": repr(cells.get("est_prefactor", 1.5)),
+                                          "points_per_side": str(cells.get("points_per_side", 3))}
+        elif cells.get("far", True):
             cfg["PairFar"] = dict(common, event_handler="two_leaf_unit_cell_bounding_potential_event_handler",
                                   number_event_handlers=str(max(1, p["n"])))
             cfg["TwoLeafUnitCellBoundingPotentialEventHandler"] = {
